@@ -203,6 +203,11 @@ func (s *seekableDecryptingReader) loadSegment(j int64) error {
 
 	plaintext, err := s.cipher.Open(s.plaintext[:0], nonce, segment, nil)
 	if err != nil {
+		// Open overwrites its destination even when authentication fails, so the
+		// previously decrypted segment is gone: forget it rather than serve the
+		// wiped buffer to a later Read of that segment.
+		s.plaintext = s.plaintext[:0]
+		s.segIndex = -1
 		return fmt.Errorf("segment %d decryption failed: %w", j, err)
 	}
 	s.plaintext = plaintext
